@@ -113,6 +113,54 @@ def close_vec(a, b, scale, rtol=1e-9):
     return bool((np.abs(a - b) <= rtol * (np.abs(b) + np.asarray(scale, float)) + 1e-300).all())
 
 
+# Python mirror of JointSystem.tla's TermTable (the specification is the source: check_c11 compares what TLC prints with this)
+JOINT_TERMS = dict(
+    F=[["Fii", "Fig*Hg", "Fia*Ha"], ["0", "gyro.F", "0"], ["0", "0", "accel.F"]],
+    G=[["Fig*gyro.J", "Fia*accel.J", "0", "0"], ["0", "0", "gyro.G", "0"], ["0", "0", "0", "accel.G"]],
+    Q=["gyro.v", "accel.v", "gyro.q", "accel.q"],
+    P0=[["T*Ppva*T'", "0", "0"], ["0", "gyro.P", "0"], ["0", "0", "accel.P"]],
+    H=["H", "0", "0"])
+
+
+def assemble(table, env, row_sizes, col_sizes):
+    """Block matrix from a table of term names; '0' is a zero block, 'A*B' a product of two named matrices."""
+    M = np.zeros((sum(row_sizes), sum(col_sizes)))
+    r0 = 0
+    for i, rs in enumerate(row_sizes):
+        c0 = 0
+        for j, cs in enumerate(col_sizes):
+            t = table[i][j]
+            if t != "0" and rs and cs:
+                if "*" in t:
+                    parts = t.split("*")
+                    v = env[parts[0]]
+                    for q in parts[1:]:
+                        v = v @ (env[q[:-1]].transpose() if q.endswith("'") else env[q])
+                else:
+                    v = env[t]
+                M[r0:r0 + rs, c0:c0 + cs] = v
+            c0 += cs
+        r0 += rs
+    return M
+
+
+def _safe(default):
+    """An exception inside an observer is a defect of the harness, never an observation about the code under test: it is
+    recorded (run_task turns it into a machinery error), the observer is switched off, and the filter run continues."""
+    def deco(fn):
+        def wrapped(self, *a, **k):
+            if self.error:
+                return default() if callable(default) else default
+            try:
+                return fn(self, *a, **k)
+            except Exception as e:
+                import traceback
+                self.error = "%s in Flow.%s: %s | %s" % (type(e).__name__, fn.__name__, e, traceback.format_exc().splitlines()[-3:])
+                return default() if callable(default) else default
+        return wrapped
+    return deco
+
+
 class Flow:
     """Dataflow of the estimation recursion, observed from outside (DESIGN.md s6 C11/C12, FilterDataflow clauses of the trace
     specifications).  The harness keeps its own copy of what the covariance P and the error vector x MUST be at every moment -
@@ -125,6 +173,10 @@ class Flow:
         self.em = m["error_model"].InsErrorModel(bool(alt))
         self.ni = self.em.n_states
         self.gm, self.am = gm, am
+        EMcls = m["inertial_sensor"].EstimationModel
+        self.gmt = gm if gm is not None else EMcls()          # what the filter uses when no model is given (documented default)
+        self.amt = am if am is not None else EMcls()
+        self.innov = {}
         self.ng = gm.n_states if gm is not None else 0
         self.na = am.n_states if am is not None else 0
         self.n = self.ni + self.ng + self.na
@@ -137,6 +189,8 @@ class Flow:
         self.p0_bit = self.p0_close = None
         self.first_in_epoch = True
         self.last_ret = {}
+        self.error = ""
+        self.p0id = 0
 
     def note(self, s):
         if len(self.notes) < 6:
@@ -146,6 +200,7 @@ class Flow:
         b = np.ascontiguousarray(np.asarray(a, dtype=np.float64)).tobytes() + str(np.shape(a)).encode()
         return self.ids.setdefault(b, len(self.ids) + 1)
 
+    @_safe(None)
     def start(self, pva):
         em = self.em
         pos, vel, lev, az = self.sds
@@ -154,15 +209,11 @@ class Flow:
                      (em.DROLL, lev), (em.DPITCH, lev), (em.DHEADING, az)):
             Pp[i, i] = v ** 2
         T = em.transform_to_internal(pva)
-        P = np.zeros((self.n, self.n))
-        P[:self.ni, :self.ni] = T @ Pp @ T.transpose()
-        if self.ng:
-            P[self.ni:self.ni + self.ng, self.ni:self.ni + self.ng] = self.gm.P
-        if self.na:
-            P[self.ni + self.ng:, self.ni + self.ng:] = self.am.P
-        self.P = P
-        self.p0id = self.iid(P)
+        sizes = [self.ni, self.ng, self.na]
+        self.P = assemble(JOINT_TERMS["P0"], {"T": T, "Ppva": Pp, "gyro.P": self.gmt.P, "accel.P": self.amt.P}, sizes, sizes)
+        self.p0id = self.iid(self.P)
 
+    @_safe(None)
     def new_epoch(self):
         self.first_in_epoch = True
         if self.kind == "fb":
@@ -175,6 +226,7 @@ class Flow:
             if not self.p0_close:
                 self.note("initial covariance is not T diag(sd^2) T' (+ sensor-model P blocks) built from transform_to_internal")
 
+    @_safe(lambda: dict(s=0, pin=0, pout=0, xin=0, xout=0, pin_bit=True, pin_close=True, xin_ok=True, xin_bit=True, args_ok=True))
     def on_correct(self, sidx, xin, Pin, z, H, R, out):
         xout, Pout, innov = out
         if not self.snaps and self.p0_bit is None:
@@ -205,10 +257,12 @@ class Flow:
         if not c["args_ok"]:
             self.note("kalman.correct was not given the (z, H placed in the INS block and zero elsewhere, R) the measurement model returned")
         self.first_in_epoch = False
+        self.innov.setdefault(sidx, []).append(np.array(innov, dtype=float, copy=True))
         self.P = np.array(Pout, dtype=float, copy=True)
         self.x = np.array(xout, dtype=float, copy=True)
         return c
 
+    @_safe(0)
     def snapshot(self, t):
         est = []
         for mdl in (self.gm, self.am):
@@ -216,6 +270,46 @@ class Flow:
         self.snaps.append(dict(t=float(t), P=None if self.P is None else self.P.copy(), x=self.x.copy(), est=est, pid=self.iid(self.P)))
         return self.snaps[-1]["pid"]
 
+    def system(self, pva_avg, gyro_avg, accel_avg):
+        """The continuous joint system (F, Q) from JointSystem's block terms, interpreted with the public pieces."""
+        Fii, Fig, Fia = self.em.system_matrices(pva_avg)
+        gm, am = self.gmt, self.amt
+        env = {"Fii": Fii, "Fig": Fig, "Fia": Fia, "Hg": gm.output_matrix(gyro_avg), "Ha": am.output_matrix(accel_avg),
+               "gyro.F": gm.F, "accel.F": am.F, "gyro.J": gm.J, "accel.J": am.J, "gyro.G": gm.G, "accel.G": am.G}
+        sizes = [self.ni, self.ng, self.na]
+        nsz = [gm.n_output_noises, am.n_output_noises, gm.n_noises, am.n_noises]
+        F = assemble(JOINT_TERMS["F"], env, sizes, sizes)
+        G = assemble(JOINT_TERMS["G"], env, sizes, nsz)
+        qenv = {"gyro.v": gm.v, "accel.v": am.v, "gyro.q": gm.q, "accel.q": am.q}
+        q = np.hstack([np.asarray(qenv[t], float) for t in JOINT_TERMS["Q"]])
+        return F, G @ np.diag(q ** 2) @ G.transpose()
+
+    @_safe(dict)
+    def on_system(self, F, Q, pva_avg, gyro_avg, accel_avg):
+        try:
+            Fe, Qe = self.system(pva_avg, gyro_avg, accel_avg)
+        except Exception as e:
+            self.note("joint system could not be assembled from the public pieces: %s: %s" % (type(e).__name__, str(e)[:100]))
+            return dict(fq_ok=False, fq_bit=False)
+        F = np.asarray(F, float); Q = np.asarray(Q, float)
+        def close(A, B):
+            return bool(A.shape == B.shape and np.isfinite(A).all() and (np.abs(A - B) <= 1e-9 * (np.abs(B).max() if B.size else 0.0) + 1e-300).all())
+        # entries of F and Q span many orders of magnitude: compare block-wise scaled by rows/columns instead of one global scale
+        def close_scaled(A, B):
+            if A.shape != B.shape or not np.isfinite(A).all():
+                return False
+            if not B.size:
+                return True
+            return bool((np.abs(A - B) <= 1e-9 * np.abs(B) + 1e-12 * np.sqrt(np.outer(np.abs(B).max(axis=1), np.abs(B).max(axis=0))) + 1e-300).all())
+        f_ok, q_ok = close_scaled(F, Fe), close_scaled(Q, Qe)
+        if not f_ok:
+            bad = np.argwhere(~(np.abs(F - Fe) <= 1e-9 * np.abs(Fe) + 1e-12 * np.sqrt(np.outer(np.abs(Fe).max(axis=1), np.abs(Fe).max(axis=0))) + 1e-300)) if F.shape == Fe.shape else []
+            self.note("the dynamics matrix handed to compute_process_matrices is not the joint system of JointSystem.tla's block terms (first differing entry %s)" % (bad[0].tolist() if len(bad) else "shape"))
+        if not q_ok:
+            self.note("the noise density handed to compute_process_matrices is not G diag(q^2) G' of JointSystem.tla's block terms")
+        return dict(fq_ok=bool(f_ok and q_ok), fq_bit=bool(F.shape == Fe.shape and F.tobytes() == Fe.tobytes() and Q.shape == Qe.shape and Q.tobytes() == Qe.tobytes()))
+
+    @_safe(lambda: dict(pexp=0))
     def on_propagate(self, dt, Phi, Qd, T, T2):
         d = dict(dt_bit=None, dt_ok=None)
         if T is not None and T2 is not None:
@@ -232,6 +326,7 @@ class Flow:
         d["pexp"] = self.iid(self.P)
         return d
 
+    @_safe((True, True))
     def on_set_pva(self, before, p):
         want = self.em.correct_pva(before, self.x[:self.ni])
         a = np.asarray(p[COLS9].values, float); b = np.asarray(want[COLS9].values, float)
@@ -245,6 +340,7 @@ class Flow:
                 float(np.nanmax(d)), COLS9[int(np.nanargmax(d))]))
         return bit, ok
 
+    @_safe(True)
     def on_update(self, which, arg):
         lo = self.ni if which == 0 else self.ni + self.ng
         hi = self.ni + self.ng if which == 0 else self.n
@@ -255,9 +351,18 @@ class Flow:
         return ok
 
     # ---- the returned tables against the snapshots
+    @_safe(lambda: dict(n_snaps=0, sd_ok=True, est_ok=True, comp_ok=True, rows_ok=False, innov_ok=True))
     def finish(self, res, traj_for_T, traj_in=None):
-        out = dict(n_snaps=len(self.snaps), sd_ok=True, est_ok=True, comp_ok=True, rows_ok=True)
+        out = dict(n_snaps=len(self.snaps), sd_ok=True, est_ok=True, comp_ok=True, rows_ok=True, innov_ok=True)
         pd = self.m["pd"]
+        for sidx, name in enumerate(getattr(self, "names", [])):
+            tab = res.innovations.get(name)
+            got = self.innov.get(sidx, [])
+            if tab is None or len(tab) != len(got):
+                continue                     # judged by innov_once / used_once
+            if len(got) and not np.array_equal(np.asarray(tab.values, float), np.vstack(got)):
+                out["innov_ok"] = False
+                self.note("innovations[%s] does not hold the normalised innovations kalman.correct returned, in order" % name)
         sdt = res.trajectory_sd
         if len(self.snaps) != len(sdt) or [s["t"] for s in self.snaps] != [float(t) for t in sdt.index]:
             out["rows_ok"] = False           # judged by the index clauses (tables / res_index); nothing to compare row by row
@@ -296,7 +401,9 @@ class Flow:
                     # metres <-> degrees at slightly different latitudes / radii: second order in the size of the correction
                     tol = 1e-6 * np.abs(e) + np.array([1e-6] * 3 + [1e-9] * 3 + [1e-9] * 3)
                     tol[:3] += float(e[:3] @ e[:3]) / 1e6
-                    if not (np.abs(dv - e) <= tol).all():
+                    dd = np.abs(dv - e)
+                    dd[6:] = np.minimum(dd[6:] % 360.0, 360.0 - dd[6:] % 360.0)      # the filter does not wrap the compensated angles
+                    if not (dd <= tol).all():
                         out["comp_ok"] = False
                         self.note("compensated trajectory at t=%r is not (computed trajectory - T x): deviation %s" % (sn["t"], np.round(dv - e, 9).tolist()))
                 except Exception as ex:
@@ -329,6 +436,14 @@ class Recorder:
             ip = getattr(self, "state", {}).pop("interp", None)
             if ip is not None:
                 ln["row"], ln["nrow"], ln["aok"] = ip[0], ip[1], bool(0.0 <= ip[2] <= 1.0)   # (an epoch one ulp below the next row gives alpha == 1.0 in floats)
+                ia = getattr(self, "state", {}).get("interp_args")
+                if ia is not None and ip[1] != ip[0]:
+                    # the state handed to the measurement models is the linear interpolation of the bracketing rows AT THE EPOCH
+                    a = (float(time) - ip[0]) / (ip[1] - ip[0])
+                    lin = ['lat', 'lon', 'alt', 'VN', 'VE', 'VD']
+                    want = (1 - a) * np.asarray(ia[0][lin].values, float) + a * np.asarray(ia[1][lin].values, float)
+                    got = np.asarray(pva[lin].values, float)
+                    ln["pva_ok"] = bool(abs(ip[2] - a) <= 1e-12 and np.allclose(got, want, rtol=1e-12, atol=1e-12))
             self.lines.append(ln)
         ln["last"] = sidx
         fl = getattr(self, "flow", None)
@@ -431,6 +546,7 @@ def run_task(m, task):
             fl = state.get("flow")
             psnap = fl.snapshot(t0) if fl is not None else 0
             out = BaseInt.integrate(self, increments)
+            state["batch"] = increments
             line = dict(a="A", T=t0, batch=[float(x) for x in increments.index], T2=float(self.get_time()), dt=None, psnap=psnap)
             state["last_adv"] = line
             rec.advance(line)
@@ -477,6 +593,9 @@ def run_task(m, task):
 
     def cpm(F, Q, dt):
         fl = state.get("flow")
+        pva_avg = state.pop("interp_ret", None)
+        if kind == "fb":
+            state.pop("interp", None)
         if kind == "ff":
             ip = state.pop("interp", None)
             ln = dict(a="A", dt=float(dt), T=ip[0] if ip else None, T2=ip[1] if ip else None)
@@ -492,6 +611,18 @@ def run_task(m, task):
                 ln = None
         out = orig["cpm"](F, Q, dt)
         if fl is not None and ln is not None:
+            if pva_avg is not None and ln.get("T") is not None and ln.get("T2") is not None and ln["T2"] != ln["T"]:
+                TH, DV = ['theta_x', 'theta_y', 'theta_z'], ['dv_x', 'dv_y', 'dv_z']
+                if kind == "fb":
+                    b = state.get("batch")
+                else:
+                    b = state.get("incs")
+                    if b is not None:
+                        b = b[(b.index > ln["T"]) & (b.index <= ln["T2"])]
+                span = ln["T2"] - ln["T"]
+                ga = None if b is None else b[TH].sum(axis=0) / span
+                aa = None if b is None else b[DV].sum(axis=0) / span
+                ln.update(fl.on_system(F, Q, pva_avg, ga, aa))
             ln.update(fl.on_propagate(dt, out[0], out[1], ln.get("T"), ln.get("T2")))
         return out
 
@@ -500,7 +631,10 @@ def run_task(m, task):
 
     def interp(first, second, alpha):
         state["interp"] = (float(first.name), float(second.name), float(alpha))
-        return orig_interp(first, second, alpha)
+        state["interp_args"] = (first, second)
+        ret = orig_interp(first, second, alpha)
+        state["interp_ret"] = ret
+        return ret
 
     EM = m["inertial_sensor"].EstimationModel
     orig_upd, orig_reset = EM.update_estimates, EM.reset_estimates
@@ -523,7 +657,7 @@ def run_task(m, task):
     res = None
     kalman.correct, kalman.compute_process_matrices, strapdown.Integrator = correct, cpm, RecInt
     EM.update_estimates, EM.reset_estimates = upd, reset
-    if has_interp and kind == "ff":
+    if has_interp:
         filters._interpolate_pva = interp
     rec.state = state
     try:
@@ -532,6 +666,7 @@ def run_task(m, task):
                                    index=pd.Index(np.asarray(task["imu"]).astype(np.int64), name='time') if intidx else None)
             flow = Flow(m, kind, task["alt"], gm, am, (1.0, 0.1, 0.1, 1.0))
             flow.start(pva)
+            flow.names = [c for c, _ in task["meas"]]
             state["flow"] = rec.flow = flow
             res = filters.run_feedback_filter(pva, 1.0, 0.1, 0.1, 1.0, incs, gm, am, meas_arg,
                                               time_step=task["step"], with_altitude=task["alt"])
@@ -548,7 +683,9 @@ def run_task(m, task):
                 gm, am = make_models(m, "bias", rng)
             flow = Flow(m, kind, task["alt"], gm, am, (1.0, 0.1, 0.1, 1.0))
             flow.start(nominal.iloc[0])
+            flow.names = [c for c, _ in task["meas"]]
             state["flow"] = rec.flow = flow
+            state["incs"] = incs
             res = filters.run_feedforward_filter(nominal, traj, 1.0, 0.1, 0.1, 1.0, gm, am, meas_arg, incs,
                                                  time_step=task["step"], with_altitude=task["alt"])
     except Diverged as e:
@@ -591,13 +728,16 @@ def run_task(m, task):
                 if set(tr.index) <= set(traj.index) else False
     flow = state.get("flow")
     if res is not None and flow is not None:
-        try:
-            fin = flow.finish(res, res.trajectory if kind == "fb" else nominal, None if kind == "fb" else traj)
-        except Exception as e:
-            fin = dict(n_snaps=len(flow.snaps), sd_ok=False, est_ok=False, comp_ok=False, rows_ok=True)
-            flow.note("result comparison raised %s: %s" % (type(e).__name__, str(e)[:120]))
+        fin = flow.finish(res, res.trajectory if kind == "fb" else nominal, None if kind == "fb" else traj)
         obs["flow"] = dict(fin, p0id=flow.p0id, p0_bit=flow.p0_bit, p0_ok=flow.p0_close, notes=flow.notes)
-    return dict(task=task, events=rec.lines, obs=obs)
+    out = dict(task=task, events=rec.lines, obs=obs)
+    if flow is not None and flow.error:
+        obs.pop("flow", None)                    # the dataflow observer broke: its verdicts are void (and the run is a machinery error)
+        for ln in rec.lines:
+            for k in ("c", "set_ok", "set_bit", "upd_ok", "psnap", "pexp", "dt_ok", "dt_bit", "fq_ok", "fq_bit"):
+                ln.pop(k, None)
+        out["harness_error"] = flow.error
+    return out
 
 
 # ---------------------------------------------------------------------------------------------
@@ -610,9 +750,9 @@ def horizons(points, step):
 
 def _flow_obs(f):
     if not f:
-        return dict(on=False, p0id=0, p0_ok=True, p0_bit=True, sd_ok=True, est_ok=True, comp_ok=True, rows_ok=True)
+        return dict(on=False, p0id=0, p0_ok=True, p0_bit=True, sd_ok=True, est_ok=True, comp_ok=True, rows_ok=True, innov_ok=True)
     return dict(on=True, p0id=int(f["p0id"]), p0_ok=f["p0_ok"] is not False, p0_bit=f["p0_bit"] is not False, sd_ok=bool(f["sd_ok"]),
-                est_ok=bool(f["est_ok"]), comp_ok=bool(f["comp_ok"]), rows_ok=bool(f["rows_ok"]))
+                est_ok=bool(f["est_ok"]), comp_ok=bool(f["comp_ok"]), rows_ok=bool(f["rows_ok"]), innov_ok=bool(f.get("innov_ok", True)))
 
 
 def abstract_record(rec, tid):
@@ -656,15 +796,18 @@ def abstract_record(rec, tid):
                            w=[w[0] for w in ln["widths"]], wok=all(w[0] == w[1] == w[2] == w[3] for w in ln["widths"]),
                            c=[dict(s=c["s"], pin=c["pin"], pout=c["pout"], xin=c["xin"], xout=c["xout"], pin_bit=c["pin_bit"], pin_ok=c["pin_close"],
                                    xin_ok=c["xin_ok"], xin_bit=c["xin_bit"], args_ok=c["args_ok"]) for c in ln.get("c", [])],
-                           set_ok=bool(ln.get("set_ok", True)), set_bit=bool(ln.get("set_bit", True)), upd_ok=bool(ln.get("upd_ok", True))))
+                           set_ok=bool(ln.get("set_ok", True)), set_bit=bool(ln.get("set_bit", True)), upd_ok=bool(ln.get("upd_ok", True)),
+                           pva_ok=bool(ln.get("pva_ok", True))))
         elif kind == "fb":
             ev.append(dict(a="A", T=R(ln["T"]), batch=[R(x) for x in ln["batch"]], T2=R(ln["T2"]),
                            dpos=bool(ln["dt"] is not None and ln["dt"] > 0),
-                           psnap=int(ln.get("psnap", 0)), pexp=int(ln.get("pexp", 0)), dt_ok=ln.get("dt_ok") is not False, dt_bit=ln.get("dt_bit") is not False))
+                           psnap=int(ln.get("psnap", 0)), pexp=int(ln.get("pexp", 0)), dt_ok=ln.get("dt_ok") is not False, dt_bit=ln.get("dt_bit") is not False,
+                           fq_ok=ln.get("fq_ok") is not False, fq_bit=ln.get("fq_bit") is not False))
         else:
             ev.append(dict(a="A", dpos=bool(ln["dt"] > 0), T=R(ln["T"]) if ln.get("T") is not None else 0,
                            T2=R(ln["T2"]) if ln.get("T2") is not None else 0,
-                           psnap=int(ln.get("psnap", 0)), pexp=int(ln.get("pexp", 0)), dt_ok=ln.get("dt_ok") is not False, dt_bit=ln.get("dt_bit") is not False))
+                           psnap=int(ln.get("psnap", 0)), pexp=int(ln.get("pexp", 0)), dt_ok=ln.get("dt_ok") is not False, dt_bit=ln.get("dt_bit") is not False,
+                           fq_ok=ln.get("fq_ok") is not False, fq_bit=ln.get("fq_bit") is not False))
     out["events"] = ev
     if obs.get("returned"):
         out["obs"] = dict(traj=[R(x) for x in obs["traj"]], tables=[[R(x) for x in tb] for tb in obs["tables"]],
